@@ -711,7 +711,7 @@ impl<'a, 'p> Gen<'a, 'p> {
         match self.ch.weighted(&[5, 5]) {
             0 => Layout::Local(self.ch.range(1, 8) as u64),
             _ => {
-                let n = 1 + self.ch.weighted(&[1, 4, 3, if thorough { 2 } else { 1 }]);
+                let n = 1 + self.ch.weighted(&[1, 4, 4, if thorough { 3 } else { 2 }]);
                 Layout::Hosts((0..n).map(|_| self.ch.range(1, 4) as u64).collect())
             }
         }
